@@ -3,7 +3,7 @@
    depth <= 2 over two keys (one dotted) and a small leaf alphabet, plus None for either argument.                *)
 EXTENDS Config
 CONSTANT NLeaves
-Keys == {"a", "b.c"}
+Keys == {"type", "b.c"}       \* "type" is what every component section of an asphalt configuration contains
 AllLeaves == <<[t |-> "i", v |-> 1], [t |-> "n"], [t |-> "i", v |-> 2], [t |-> "l", v |-> <<[t |-> "i", v |-> 1]>>]>>
 Leaves == {AllLeaves[i] : i \in 1..NLeaves}
 Dicts(R) == UNION {[K -> R] : K \in SUBSET Keys}
